@@ -111,7 +111,8 @@ def _split_params(s):
 # (lookarounds: the separators are not consumed, so wrappers that follow each other without a blank line are all found;
 #  nothing else about the body's text - local names, temporaries, statement layout - is assumed)
 C_WRAPPER_RE = re.compile(r"(?<=\n)static inline (?P<ret>[^\n(]*?)(?P<name>\w+)\((?P<params>[^\n]*)\)\s*\{(?P<body>.*?)\n\}(?=\n)", re.S)
-CALL_RE = re.compile(r"(?:->|\.)(\w+)\)->(\w+)\(")
+# the vtable call of a wrapper, however the object is spelled: self->vtbl, self.vtbl, (*self).vtbl, ((T *)self)->vtbl, this->vtbl, (*this).vtbl, vtbl
+CALL_RE = re.compile(r"\b(vtbl\w*)\s*\)\s*->\s*(\w+)\s*\(")
 
 
 def parse_wrappers_c(text):
@@ -131,7 +132,7 @@ def parse_wrappers_c(text):
             w["generic"] = False
         elif g:
             w["self"] = "ptr"
-            c = re.search(r"\(\((?:const )?(struct \w+) \*\)self\)", body)
+            c = re.search(r"\((?:const )?(struct \w+) \*\)\s*self\b", body)
             w["subject"] = c.group(1) if c else None
             w["generic"] = True
         else:
@@ -160,7 +161,7 @@ def parse_wrappers_cpp(text, model):
         if m:
             for w in CPP_MEMBER_RE.finditer("\n" + m.group("body") + "\n"):
                 body = w.group("body")
-                c = re.search(r"\(this->(\w+)\)->(\w+)\(", body)
+                c = CALL_RE.search(body)
                 ws.append({"name": w.group("name"), "ret": w.group("ret").strip(), "params": _split_params(w.group("params")),
                            "qual": (w.group("qual") or "").strip(), "body": body, "calls": (c.group(1), c.group(2)) if c else None,
                            "generic": False, "subject": fam,
